@@ -865,7 +865,10 @@ def splitCountG (guardEmpty guardClamp : Bool) (value sep count : Val) : Res Val
 def splitCountC := splitCountG true true
 
 /-- the length hypothesis of the two theorems below: the subject string (if the value is one) is shorter than the largest
-    `[]any` the mirror's `make` accepts (2^47 elements). Go strings that exist in memory satisfy it. -/
+    `[]any` that `make` accepts (`makeLimit = maxAlloc / 16 = 2^44` elements, Go's own `makeslice` limit on 64-bit
+    platforms).  NOT vacuous in principle: `split(s, '')` makes one element per rune, so for a string of more than 2^44
+    runes (≥ 16 TiB) Go's `make([]any, n+1)` itself panics with `makeslice: len out of range`; no such string fits in a
+    real process next to its 256 TiB result, which is why this is a hypothesis and not a finding. -/
 def StrFits (value : Val) : Prop := ∀ s, value = .str s → (s.length : Int) < makeLimit
 
 /-- `split(s, sep)`: `make`, every `r[i] = …`, `s[:l]`, `s[l:]`, `s[:j]`, `s[j+len(p):]` and `r[:i+1]` stay in range, for every
